@@ -185,7 +185,7 @@ def main(what, say):
         from . import runner as R
         bad = 0
         for prop, variant, part in (("C13", "asan", ""), ("C13", "tsan", ""), ("C20", "asan", ""), ("C14", "asan", "random"), ("C14", "tsan", "hints"),
-                                    ("C14", "asan", ""), ("C12", "asan", ""), ("C12", "gzero", ""), ("C19", "asan", "faulted"), ("C19", "asan", "random")):
+                                    ("C14", "asan", ""), ("C12", "asan", ""), ("C12", "gzero", ""), ("C19", "asan", "faulted"), ("C19", "asan", "random"), ("C19", "asan", "platform"), ("C14", "asan", "order")):
             B.build(variant)
             n = 2000
             a = R.run_stage(variant, prop, "quick", 4242, part, n, 125, hash_mod=1, samples=0)
